@@ -10,18 +10,18 @@ const { planH5, executeH5 } = require('./h5')
 
 const FILE = '/sim/c06/module.js'
 
-function cfgOf (prefix) {
+function cfgOf (prefix, kind) {
+  const operators = [{ src: 'plusOperator', operator: true }, { src: 'tplOperator', operator: true }]
+  const methods = [{ src: 'trim' }, { src: 'trimStart' }, { src: 'trimEnd' }, { src: 'concat' }, { src: 'aloneMethod', allowedWithoutCallee: true }]
+  // valid, rarely used configurations: string methods without any operator, operators without methods
+  const csiMethods = kind === 'methods-only' ? methods : kind === 'operators-only' ? operators : kind === 'plus-off' ? [operators[1]].concat(methods) : operators.concat(methods)
   return {
     chainSourceMap: false,
     comments: false,
     localVarPrefix: prefix,
     telemetryVerbosity: 'OFF',
     literals: false,
-    csiMethods: [
-      { src: 'plusOperator', operator: true }, { src: 'tplOperator', operator: true },
-      { src: 'trim' }, { src: 'trimStart' }, { src: 'trimEnd' }, { src: 'concat' },
-      { src: 'aloneMethod', allowedWithoutCallee: true }
-    ]
+    csiMethods
   }
 }
 
@@ -40,7 +40,8 @@ function plan (seed, run, tier) {
     depth: rng.range(2, 5),
     lateHooks: rng.chance(1, 5),
     prefix: 'sim',
-    tag: allowKnownCtx ? 'known-ctx-allowed' : ''
+    tag: allowKnownCtx ? 'known-ctx-allowed' : '',
+    cfgKind: rng.pick(['full', 'full', 'full', 'full', 'full', 'methods-only', 'methods-only', 'operators-only', 'plus-off'])
   }
 }
 
@@ -51,7 +52,7 @@ function jobs (plan) {
     return js
   }
   const r = render(plan.prog)
-  return [{ cfg: cfgOf(plan.prefix), prng_seed: 1, file: FILE, code: r.text }]
+  return [{ cfg: cfgOf(plan.prefix, plan.cfgKind), prng_seed: 1, file: FILE, code: r.text }]
 }
 
 const tick = () => new Promise((resolve) => setImmediate(resolve))
@@ -109,7 +110,7 @@ async function execute (plan, table) {
     return rep
   }
   const r = render(plan.prog)
-  const job = { cfg: cfgOf(plan.prefix), prng_seed: 1, file: FILE, code: r.text }
+  const job = { cfg: cfgOf(plan.prefix, plan.cfgKind), prng_seed: 1, file: FILE, code: r.text }
   const resp = table.get(job)
   const log = []
   if (!resp.ok) {
